@@ -20,6 +20,9 @@ RoutesM == Same("construct") \cup Same("pickle") \cup Same("deepcopy")
                  [r |-> "upcast", from |-> "Molecule", to |-> "Structure"]}
            \cup {[r |-> "concat", from |-> "Structure", to |-> "Structure"], [r |-> "concat", from |-> "Molecule", to |-> "Molecule"]}
            \cup {[r |-> "or", from |-> "Structure", to |-> "Structure"], [r |-> "or", from |-> "Molecule", to |-> "Structure"]}   \* a | b
+           \cup {[r |-> x, from |-> "Structure", to |-> "Structure"] : x \in {"or_e1", "or_e2", "concat_e1", "concat_e2"}}   \* one operand without atoms
+           \cup {[r |-> x, from |-> "Molecule", to |-> "Structure"] : x \in {"or_e1", "or_e2"}}
+           \cup {[r |-> x, from |-> "Molecule", to |-> "Molecule"] : x \in {"concat_e1", "concat_e2"}}
            \cup {[r |-> "join", from |-> "Structure", to |-> "Structure"], [r |-> "join", from |-> "Molecule", to |-> "Molecule"]}
            \cup {[r |-> "ensemble_from", from |-> "Molecule", to |-> "ConformerEnsemble"]}
            \* constructors called with the source's own arrays as explicit arguments (coords=, atomic_charges=, weights=)
